@@ -15,7 +15,7 @@ BUDGET = {'quick': 300, 'thorough': 6000}
 
 @st.composite
 def _spec(draw, tier):
-    spec = draw(specs.sel_spec(max_nodes=10 if tier == 'quick' else 12, max_incompat=3))
+    spec = draw(specs.sel_spec(max_nodes=10 if tier == 'quick' else 12, max_incompat=3, dag_rich=draw(st.booleans())))
     if not spec['incompat']:
         names = list(spec['nodes'])
         u = draw(st.sampled_from(names))
@@ -26,7 +26,7 @@ def _spec(draw, tier):
 
 
 def strategy(tier):
-    return st.fixed_dictionaries({'spec': _spec(tier)})
+    return st.fixed_dictionaries({'spec': st.one_of(_spec(tier), specs.layered_spec())})
 
 
 def check_case(case, tier='quick'):
